@@ -68,6 +68,7 @@ type lockGate struct {
 	id     int
 	sh     *lockShared
 	before func(op, name string) // scenario hook, called outside the mutex
+	after  func(op, name string, err error)
 }
 
 func (g *lockGate) hook(op, name string) {
@@ -81,11 +82,38 @@ func (g *lockGate) hook(op, name string) {
 	}
 }
 
-func (g *lockGate) Mkdir(name string, perm os.FileMode) error {
+func (g *lockGate) Mkdir(name string, perm os.FileMode) (err error) {
 	g.hook("Mkdir", name)
 	if filepath.Clean(name) != g.sh.lockPath {
 		return g.Fs.Mkdir(name, perm)
 	}
+	defer func() {
+		if g.after != nil {
+			g.after("Mkdir", name, err)
+		}
+	}()
+	return g.mkdirLocked(name, perm)
+}
+
+// MkdirAll on the lock directory: creating it is an acquisition like Mkdir; finding it there is not
+func (g *lockGate) MkdirAll(name string, perm os.FileMode) error {
+	g.hook("MkdirAll", name)
+	if filepath.Clean(name) != g.sh.lockPath {
+		return g.Fs.MkdirAll(name, perm)
+	}
+	g.sh.mu.Lock()
+	defer g.sh.mu.Unlock()
+	_, before := g.Fs.Stat(name)
+	err := g.Fs.MkdirAll(name, perm)
+	if err == nil && before != nil {
+		g.sh.events = append(g.sh.events, fmt.Sprintf("mk+%d", g.id))
+	} else if err == nil {
+		g.sh.notes = append(g.sh.notes, fmt.Sprintf("mkdirall-on-existing-lock-directory:%d", g.id))
+	}
+	return err
+}
+
+func (g *lockGate) mkdirLocked(name string, perm os.FileMode) error {
 	g.sh.mu.Lock()
 	defer g.sh.mu.Unlock()
 	if g.sh.auto[g.id] && g.sh.releasing[g.id] {
@@ -389,6 +417,74 @@ func lockMutexMain(args []string) {
 			}
 			judge(w, "lockcase w2 "+backend, atomic.LoadInt32(&maxH), true, n)
 			for _, i := range []int{1, 2} {
+				w.sh.begin(i)
+				_ = w.locks[i].Unlock(ctx)
+				w.sh.end(i)
+			}
+		}()
+	}
+	// ---------------- W3: the directory to lock appears while a contender is inside TryLock ----------------
+	for _, backend := range []string{"mem", "os"} {
+		func() {
+			w := newLockWorld(backend, []int{0, 1}, false)
+			defer w.cleanup()
+			// move the lock below a directory that does not exist yet
+			missing := filepath.Join(w.dir, "later")
+			w.sh.lockPath = filepath.Join(missing, "lockfile-L")
+			ty := filesystem.InMemoryFS
+			if backend == "os" {
+				ty = filesystem.StandardFS
+			}
+			for _, id := range []int{0, 1} {
+				vfs := filesystem.NewVirtualFileSystem(w.gates[id], ty, filesystem.IdentityPathConverterFunc).(*filesystem.VFS)
+				w.locks[id] = filesystem.NewGenericRemoteLockFile(vfs, "L", missing, false)
+			}
+			blocked := make(chan struct{})
+			resume := make(chan struct{})
+			var once sync.Once
+			w.gates[0].after = func(op, name string, err error) {
+				if err != nil {
+					first := false
+					once.Do(func() { first = true; close(blocked) })
+					if first {
+						<-resume
+					}
+				}
+			}
+			var holders, maxH int32
+			acq := func(i int) bool {
+				if w.locks[i].TryLock(ctx) == nil {
+					h := atomic.AddInt32(&holders, 1)
+					if h > atomic.LoadInt32(&maxH) {
+						atomic.StoreInt32(&maxH, h)
+					}
+					return true
+				}
+				return false
+			}
+			done := make(chan bool, 1)
+			go func() { done <- acq(0) }()
+			select {
+			case <-blocked:
+			case <-time.After(3 * time.Second):
+			}
+			_ = w.inner.MkdirAll(missing, 0o755)
+			a1 := acq(1)
+			close(resume)
+			a0 := false
+			select {
+			case a0 = <-done:
+			case <-time.After(5 * time.Second):
+			}
+			n := 0
+			if a0 {
+				n++
+			}
+			if a1 {
+				n++
+			}
+			judge(w, "lockcase w3-directory-appears-during-trylock "+backend, atomic.LoadInt32(&maxH), false, n)
+			for _, i := range []int{0, 1} {
 				w.sh.begin(i)
 				_ = w.locks[i].Unlock(ctx)
 				w.sh.end(i)
